@@ -311,6 +311,15 @@ def pairs_rule(rep, prog, cfg):
         b = bs[0]
         cs = tables.str_compares(b)
         lits = {c["lit"] for c in cs}
+        if not keys <= lits:
+            # `expect_key(pair, "channel")?`: the comparison sits in a private helper, the name is its argument — spliced in, the
+            # argument is a constant of that copy (A12)
+            from ..inline import inlined, module_private_helpers
+            nb2 = inlined(prog, b, module_private_helpers(b), depth=2)
+            if nb2.raw.get("inlined"):
+                b = nb2
+                cs = tables.str_compares(b)
+                lits = {c["lit"] for c in cs}
         rep.check(keys <= lits, rule, "%s/%s keys" % (cfg, short), b.loc(b.span),
                   "%s compares field names with %s, expected to see %s" % (short, sorted(lits), sorted(keys)),
                   detail={"literals": sorted(lits)})
@@ -330,9 +339,24 @@ def key_guard_rule(rep, prog, cfg):
     rule = "C16.pairs"
     UNEXP = "mpd_client::responses::TypedResponseError::unexpected_field"
     n = 0
+    # a guard written once in a private helper that takes the expected name as a parameter (`expect_key(pair, "channel")?`) is
+    # judged where the helper is called: the callers are read with it spliced in, the name is then a constant of each copy
+    from ..inline import inlined, module_private_helpers
+    param_helpers = set()
+    for hb in prog.bodies.values():
+        if hb.crate == "mpd_client" and not hb.raw.get("derived") and hb.kind in ("Fn", "AssocFn") and not hb.raw.get("pub") and not hb.raw.get("exported"):
+            hc = [(bb, t) for bb, t in hb.calls() if UNEXP in callee_names(t) and t["args"]]
+            if hc and any(tables.arg_str(hb, t["args"][0]) is None for _, t in hc):
+                param_helpers.add(hb.id)
+    bodies = []
     for b in prog.bodies.values():
-        if b.crate != "mpd_client" or b.raw.get("derived"):
+        if b.crate != "mpd_client" or b.raw.get("derived") or b.id in param_helpers:
             continue
+        if param_helpers and any((callee(t) or {}).get("def") in param_helpers or (callee(t) or {}).get("inst") in param_helpers for _, t in b.calls()):
+            nb2 = inlined(prog, b, lambda cb: cb.id in param_helpers, depth=1)
+            b = nb2 if nb2.raw.get("inlined") else b
+        bodies.append(b)
+    for b in bodies:
         cs = [c for c in tables.str_compares(b) if c["true"] is not None and c["false"] is not None]
         if not cs:
             continue
